@@ -2286,6 +2286,25 @@ def _std(self, fn, st, b, t, cn, last, args, dargs, targ, summ, chain, tctrl):
         return z
     if cn.endswith(("Iterator::enumerate", "Iterator::rev", "Iterator::skip", "Iterator::take", "Iterator::cloned", "Iterator::copied")) and dargs and dargs[0]["k"] == "seq":
         return dargs[0]
+    if cn.endswith(("Iterator::map", "Iterator::filter", "Iterator::filter_map", "Iterator::inspect")) and dargs and dargs[0]["k"] == "seq":
+        # one item out per item in at most: the length bound survives, the elements are unknown
+        src = dargs[0]
+        exact = cn.endswith(("Iterator::map", "Iterator::inspect"))
+        ln = dict(src["len"]) if exact else mk(0, src["len"]["hi"], src["len"]["t"])
+        if not exact:
+            ln.pop("s", None)
+        return seq(ln, taint_of(src) or targ)
+    if cn.endswith(("Iterator::collect", "FromIterator::from_iter")) and dargs and dargs[0]["k"] == "seq":
+        # a collection of what the iterator yields: a Vec has exactly that many items, a set or map at most that many
+        src = dargs[0]
+        if dty.startswith("alloc::vec::Vec<"):
+            out = seq(dict(src["len"]), taint_of(src))
+            if src.get("e") is not None:
+                out["e"] = src["e"]
+            return out
+        if "BTreeSet<" in dty or "BTreeMap<" in dty or "HashSet<" in dty or "HashMap<" in dty:
+            return seq(mk(0, src["len"]["hi"], src["len"]["t"]), taint_of(src))
+        return NotImplemented
     if cn.startswith("core::mem::"):
         if last in ("take", "replace"):
             return dargs[0] if dargs else top()
